@@ -231,6 +231,23 @@ impl Check for C05 {
         let nonempty = !lib.macros.is_empty() || !lib.sites.is_empty() || !lib.vias.is_empty();
         let art = |more: Value| json!({"source_text": truncate(&text, 6000), "library": lef_artefact(&lib), "more": more});
         let v = |class: &str, sig: String, detail: String, more: Value| Violation { class: class.into(), sig, detail, artefact: art(more) };
+        // ---- history step (1 run in 4): an earlier call on this thread that the writer refuses part-way.
+        // The refused value is NOT in the property's input space (it is `lib` with a VERSION the reader would
+        // not have accepted for one of its statements), and its outcome is not judged; what is judged is that
+        // the call that follows, on the reader-produced `lib`, behaves as if nothing had happened before.
+        if wt.draw(4) == 0 {
+            let mut decoy = lib.clone();
+            decoy.version = Some(lef21::LefDecimal::new(58, 1));
+            match decoy.macros.first_mut() {
+                Some(m) if wt.draw(2) == 0 => m.source = Some(lef21::LefDefSource::User),
+                _ => decoy.names_case_sensitive = Some(lef21::LefOnOff::On),
+            }
+            match guard(|| decoy.to_string()) {
+                Ok(Err(_)) => out.probes.hit("history:refused_write_before_the_judged_write"),
+                Ok(Ok(_)) => out.probes.hit("history:decoy_write_accepted"),
+                Err(_) => out.probes.hit("history:decoy_write_panicked"),
+            }
+        }
         // ---- fault-free: to_string and save must succeed and read back equal
         let s0 = match guard(|| lib.to_string()) {
             Err(p) => {
